@@ -116,9 +116,10 @@ PROPS = {
     },
     "C12": {
         "level": "exploration",
-        "steps": [("hv", "C12", {})],
+        "steps": [("hv", "C12", {}), ("py", "lsx", "run_c12")],
         "rule": "pairs (P, D): P = rule sentence / generated clause / hostile Unicode without double quotes, closed by a terminator and a blank line, "
                 "D = arbitrary further text; compare lints(P++D) with lints(P) + shift(lints(D), |P|) as multisets, all rules on, fresh linter per call; "
+                "the same relation at the language server: P++D, P and D opened as plain-text documents, diagnostics of the whole = those of P + those of D moved down by P's lines (P with astral / combining characters); "
                 "non-trivial = P has >= 1 lint and D is non-empty; distinct = hash(P, D)",
         "assumptions": ["multiset comparison: the statement fixes no order across rules", "cache effects are excluded here (fresh linter per call); they belong to C05"],
     },
@@ -284,7 +285,7 @@ META = {
         "level_note": "Trusted: each rule's single-rule output as the definition of 'what the rule produces on its own'.",
     },
     "C12": {
-        "engine": "E1-hv",
+        "engine": "E1-hv, E2-lsp",
         "design_ref": "DESIGN.md §5 C12",
         "technique": "runtime monitoring: metamorphic paragraph-split relation over generated (P, D) pairs with all rules on",
         "level_text": "Exploration: 60 k (quick) / 3 M (thorough) pairs; lints(P++D) must equal lints(P) + shift(lints(D)) as multisets, fresh linter per call.",
